@@ -137,6 +137,99 @@ fn cons_hist_ref(n: usize, empty: bool, ops: &[u8]) -> String {
     format!("{}|{}|L={}|leak={}", if steps.is_empty() { "-".to_string() } else { steps.join(";") }, fin, elog::log(), elog::leaked())
 }
 
+/// the same histories over a ZERO-SIZED element with a destructor (`elog::Z`): a ZST cannot carry an id, so the
+/// observation is counts (`Z=<created>,<dropped>,<moved>`) and the remaining length after every step
+/// (added after seeded change C15-r5-2: a `Drop` that walked `ptr..end` dropped nothing when `ptr == end`)
+fn cons_zhist<const N: usize>(ops: &[u8]) -> String {
+    elog::reset();
+    let mut cur: Option<ArrayConsumer<elog::Z, N>> = Some(ArrayConsumer::new(core::array::from_fn(|_| elog::znew())));
+    let mut steps: Vec<String> = Vec::new();
+    let mut fin = String::new();
+    let show = |x: Option<ManuallyDrop<elog::Z>>| match x {
+        None => "none".to_string(),
+        Some(z) => {
+            elog::ztake(ManuallyDrop::into_inner(z));
+            "some".to_string()
+        }
+    };
+    for &op in ops {
+        let res;
+        match op {
+            b'f' => res = show(cur.as_mut().unwrap().next()),
+            b'b' => res = show(cur.as_mut().unwrap().next_back()),
+            b'c' => {
+                let old = cur.take().unwrap();
+                let new = old.clone();
+                drop(old);
+                cur = Some(new);
+                res = "ok".to_string();
+            }
+            b'k' => {
+                drop(cur.as_ref().unwrap().clone());
+                res = "ok".to_string();
+            }
+            b'd' => {
+                drop(cur.take());
+                fin = "d".to_string();
+                break;
+            }
+            b'g' => {
+                std::mem::forget(cur.take());
+                fin = "g".to_string();
+                break;
+            }
+            _ => return "bad-op".to_string(),
+        }
+        steps.push(format!("{}={},{}", op as char, res, cur.as_ref().unwrap().as_slice().len()));
+    }
+    std::mem::forget(cur);
+    format!("{}|{}|{}", if steps.is_empty() { "-".to_string() } else { steps.join(";") }, fin, elog::zcounts())
+}
+
+fn cons_zhist_ref(n: usize, ops: &[u8]) -> String {
+    elog::reset();
+    let mut cur: VecDeque<elog::Z> = (0..n).map(|_| elog::znew()).collect();
+    let mut steps: Vec<String> = Vec::new();
+    let mut fin = String::new();
+    let show = |x: Option<elog::Z>| match x {
+        None => "none".to_string(),
+        Some(z) => {
+            elog::ztake(z);
+            "some".to_string()
+        }
+    };
+    for &op in ops {
+        let res;
+        match op {
+            b'f' => res = show(cur.pop_front()),
+            b'b' => res = show(cur.pop_back()),
+            b'c' => {
+                let new = cur.clone();
+                cur = new;
+                res = "ok".to_string();
+            }
+            b'k' => {
+                drop(cur.clone());
+                res = "ok".to_string();
+            }
+            b'd' => {
+                cur.clear();
+                fin = "d".to_string();
+                break;
+            }
+            b'g' => {
+                std::mem::forget(std::mem::take(&mut cur));
+                fin = "g".to_string();
+                break;
+            }
+            _ => return "bad-op".to_string(),
+        }
+        steps.push(format!("{}={},{}", op as char, res, cur.len()));
+    }
+    std::mem::forget(cur);
+    format!("{}|{}|{}", if steps.is_empty() { "-".to_string() } else { steps.join(";") }, fin, elog::zcounts())
+}
+
 fn led_value<const N: usize>(out: &mut Out) {
     // map_!: inputs 0..N-1, the closure consumes its input (`c`) and creates output N+k
     elog::reset();
@@ -231,6 +324,15 @@ pub fn run(tier: &str, _seed: u64, out: &mut Out) {
         let imp = cons_hist::<6>(false, h);
         let ora = cons_hist_ref(6, false, h);
         out.emit(&format!("cons.hist new 6 {}", String::from_utf8_lossy(h)), &imp, &ora, true);
+    }
+    // zero-sized elements with a destructor (implementation vs `VecDeque`; the model's ledger is by element id)
+    let zdepth = if tier == "thorough" { 6 } else if tier == "small" { 3 } else { 5 };
+    for n in 0..=4usize {
+        for h in histories(b"fbck", b"dg", zdepth - 1) {
+            let imp = with_n!(n, cons_zhist, &h);
+            let ora = cons_zhist_ref(n, &h);
+            out.emit(&format!("cons.zhist {} {}", n, String::from_utf8_lossy(&h)), &imp, &ora, true);
+        }
     }
     run_builder(tier, out);
     led_value::<0>(out);
